@@ -57,6 +57,9 @@ pub enum MapFn {
     Scramble,
     /// v -> v + state.acc (inside loops), identity elsewhere
     AddState,
+    /// identity; on the engine the closure sleeps `us` microseconds before every element with
+    /// v.rem_euclid(k) == 0: a slow, bursty stream
+    Paced(i64, u32),
 }
 
 impl MapFn {
@@ -66,6 +69,15 @@ impl MapFn {
             MapFn::Rem(k) => v.rem_euclid(k.max(1)),
             MapFn::Scramble => (mix64(v as u64) >> 44) as i64,
             MapFn::AddState => v.wrapping_add(state_acc),
+            MapFn::Paced(..) => v,
+        }
+    }
+    /// what the closure does on the engine besides computing `apply`
+    pub fn side_effect(&self, v: i64) {
+        if let MapFn::Paced(k, us) = *self {
+            if v.rem_euclid(k.max(1)) == 0 {
+                std::thread::sleep(std::time::Duration::from_micros(us as u64));
+            }
         }
     }
 }
